@@ -235,6 +235,12 @@ def checkVerdict (lm : LinModel (Ext Rat)) (solver : String) (r : ImplRes (Ext R
     else if microlpBased && variant == "Other" && msg.startsWith "bounded B&B node reported unbounded" && isMip p &&
         (sol.verdict matches .unbounded) && improvingRayThroughFree p then
       viol "microlp-node-unbounded-free-variable" [.atom solver]
+    -- third symptom of microlp's flat-free-direction defect: on a BOUNDED mixed-integer model with a recession direction
+    -- of zero objective through a free variable (typically an unused free column) a branch & bound node LP is reported
+    -- unbounded along that direction and microlp turns it into the internal error below
+    else if microlpBased && variant == "Other" && msg.startsWith "bounded B&B node reported unbounded" && isMip p &&
+        (match sol.verdict with | .optimal _ _ => true | _ => false) && flatFreeDirection p then
+      viol "microlp-flat-free-direction" [.atom solver, .atom "node-unbounded-error", tag]
     else if solver == "clarabel" then okS [.atom "no-verdict", .atom variant, tag]
     else viol "no-dedicated-verdict" [.atom solver, .atom variant, tag]
   | .hang, _ =>
@@ -349,7 +355,9 @@ def sensitivity (p : Prob Rat) (v0 : Rat) (i : Nat) : Option Rat :=
     if sp == sm then some sp else none
   | _, _ => none
 
-def closeAbs (a b : Rat) : Bool := rabs (a - b) ≤ tol6 * rmax 1 (rabs b)
+/-- shadow prices are compared at 5e-6 (relative above 1): the interior-point duals carry up to ~1.5e-6 of noise on
+near-degenerate vertices (1 case in 8000), while every effect the check is meant to see is ≥ 1e-5. -/
+def closeAbs (a b : Rat) : Bool := rabs (a - b) ≤ 5 * tol6 * rmax 1 (rabs b)
 
 def checkShadow (lm : LinModel (Ext Rat)) (r : ImplRes (Ext Rat)) : Sexp :=
   match ofLinModel lm with
